@@ -14,6 +14,7 @@ those inherited from the per-format `*_exact` / `*_refused` theorems of Props/C1
  * `patch_idempotent*`            : OR-ing the mask a second time changes nothing (re-resolving a fixup is harmless).
 -/
 import AsmjitVerif.Props.C17
+import AsmjitVerif.Props.C17Generic
 namespace AsmjitVerif.Offset
 
 /-! ### 32-bit path (value sizes 1, 2, 4) -/
@@ -97,6 +98,31 @@ theorem offset_codec_decides : ∀ f ∈ formatsInUse, CodecDecides f := by
   · rename_i h8
     rw [if_neg h8] at h
     exact ⟨refused_iff_unrepresentable32 f h.1 h.2, encode_injective32 f h.1⟩
+
+
+/-- from the exactness statement of a format to its decision form (any format) -/
+theorem CodecExact.decides {f : OffsetFormat} (h : CodecExact f) : CodecDecides f := by
+  unfold CodecExact at h
+  unfold CodecDecides
+  split
+  · rename_i h8
+    rw [if_pos h8] at h
+    exact ⟨refused_iff_unrepresentable64 f h.1 h.2, encode_injective64 f h.1⟩
+  · rename_i h8
+    rw [if_neg h8] at h
+    exact ⟨refused_iff_unrepresentable32 f h.1 h.2, encode_injective32 f h.1⟩
+
+/-- **decision form for EVERY signed / unsigned geometry** that fits its value word (bits, shift, discard symbolic): a format a future
+    backend may add is covered without a new proof, as long as it is a plain signed / unsigned field. -/
+theorem generic_codec_decides (t : OffsetType) (ht : t = .signed ∨ t = .unsigned) (size shift bits discard : Nat)
+    (hsz : size = 1 ∨ size = 2 ∨ size = 4 ∨ size = 8)
+    (hb : 1 ≤ bits) (hbs : bits + shift ≤ 8 * size) (hd : discard ≤ 32) :
+    CodecDecides (immValue t size shift bits discard) :=
+  (generic_codec_exact t ht size shift bits discard hsz hb hbs hd).decides
+
+/-- non-vacuity: a geometry no backend uses (11-bit signed field at bit 3 of a 2-byte word, 1 bit discarded) -/
+example : CodecDecides (immValue .signed 2 3 11 1) :=
+  generic_codec_decides .signed (Or.inl rfl) 2 3 11 1 (by decide) (by decide) (by decide) (by decide)
 
 /-- non-vacuity: the list of formats in use is not empty, and a concrete accepted / refused pair exists for the AArch64 imm19 branch format -/
 example : formatsInUse ≠ [] := by decide
